@@ -2,7 +2,7 @@
 # invocation the audit trail of every workspace of the current package graph must (a) exist, (b) carry the variant-id
 # of the step that lives there now, the real recipe/package/step names and the user's -M variables, (c) record the
 # actual content hash of the workspace, (d) reference, transitively and completely, the trails of the arguments.
-import os, sys, json, random, time, concurrent.futures as cf
+import gzip, json, os, sys, json, random, time, concurrent.futures as cf
 from replay import projlib as P
 
 HASHDIR = [None]
@@ -52,6 +52,68 @@ def check_audits(p, q, metas, when):
                 return {'kind': 'audit-args', 'when': when, 'workspace': ws, 'audit_args': len(art['dependencies'].get('args', [])), 'step_args': len(s['args'])}
     return None
 
+def record_digest(rec):
+    """independent re-implementation of the documented artifact id: SHA-1 over the record without its id (maps sorted by key)"""
+    import hashlib, struct
+    h = hashlib.sha1()
+    def dig(d):
+        if isinstance(d, str): h.update(struct.pack('<BI', 2, len(d))); h.update(d.encode('utf8'))
+        elif isinstance(d, dict):
+            h.update(struct.pack('<BI', 1, len(d)))
+            for k in sorted(d): dig(k); dig(d[k])
+        elif isinstance(d, list):
+            h.update(struct.pack('<BI', 3, len(d)))
+            for i in d: dig(i)
+        elif isinstance(d, int): h.update(struct.pack('<Bq', 4, d))       # (bool is an int for the real implementation too)
+        elif d is None: h.update(struct.pack('<B', 7))
+        else: raise ValueError(type(d))
+    dig({k: v for k, v in rec.items() if k != 'artifact-id'})
+    return h.hexdigest()
+
+def check_ids(p, when):
+    """artifact ids are a function of the record content only: every record of every trail (own and referenced) carries the
+    digest of its content, and a referenced record is the record of the dependency itself"""
+    by_id = {}
+    for dp, ds, fs in os.walk(p.dir):
+        if 'audit.json.gz' not in fs: continue
+        f = os.path.join(dp, 'audit.json.gz')
+        with gzip.open(f, 'rb') as g: a = json.load(g)
+        for r in [a['artifact']] + list(a.get('references', [])):
+            if record_digest(r) != r['artifact-id']:
+                return {'kind': 'artifact-id-is-not-the-digest-of-the-record', 'when': when, 'trail': os.path.relpath(f, p.dir), 'record_of': r.get('meta', {}).get('package'), 'keys': sorted(r)}
+            prev = by_id.setdefault(r['artifact-id'], r)
+            if prev != r: return {'kind': 'same-artifact-id-different-records', 'when': when, 'trail': os.path.relpath(f, p.dir)}
+    return None
+
+def download_history():
+    """trails that were parsed from JSON (downloaded artifacts) and then referenced by locally built steps"""
+    import shutil, tempfile
+    base = tempfile.mkdtemp(prefix='c14d-'); log = []
+    try:
+        arch = os.path.join(base, 'archive'); os.makedirs(arch)
+        model = {'recipes': {'r0': {'root': True, 'depends': ['lib', 'meta'], 'buildScript': 'cat "$2"/result.txt > out.txt\n', 'packageScript': 'cp "$1"/out.txt result.txt\n'},
+                             'lib': {'buildScript': 'echo lib > out.txt\n', 'packageScript': 'cp "$1"/out.txt result.txt\n'},
+                             'meta': {'metaEnvironment': {'LICENSE': 'MIT'}, 'buildScript': 'echo m > out.txt\n', 'packageScript': 'cp "$1"/out.txt result.txt\n'}},
+                 'config': {}, 'files': {'default.yaml': 'archive:\n  backend: file\n  path: "%s"\n' % arch}}
+        p = P.Project(root=os.path.join(base, 'proj')); p.write(model)
+        rc, out = p.bob('dev', 'r0', '--upload'); log.append('build and upload')
+        if rc != 0: return None, ['harness problem: project does not build: %s' % out[-200:]]
+        w = check_ids(p, 'after the local build')
+        if w: w['history'] = log; return w, log
+        shutil.rmtree(os.path.join(p.dir, 'dev'), ignore_errors=True)
+        for f in os.listdir(p.dir):
+            if f.startswith('.bob-'): os.unlink(os.path.join(p.dir, f)) if os.path.isfile(os.path.join(p.dir, f)) else shutil.rmtree(os.path.join(p.dir, f), ignore_errors=True)
+        log.append('workspaces and state removed')
+        rc, out = p.bob('dev', 'r0', '--download=deps'); log.append('rebuild with --download=deps')
+        if rc != 0: return None, ['harness problem: rebuild failed: %s' % out[-200:]]
+        w = check_ids(p, 'after the rebuild over downloaded dependencies')
+        if w: w['history'] = log; return w, log
+        return None, log
+    except Exception as ex:
+        return None, ['harness problem: %r' % (ex,)]
+    finally:
+        shutil.rmtree(base, ignore_errors=True)
+
 def one_history(seed, steps):
     rnd = random.Random(seed)
     p = P.Project(prefix='c14-')
@@ -66,7 +128,7 @@ def one_history(seed, steps):
             p.write(model)
             rc, out = p.bob('dev', 'r0', *margs)
             if rc != 0: return None, log          # generated project does not build: not a case
-            w = check_audits(p, p.query(), metas, 'build #%d' % i)
+            w = check_audits(p, p.query(), metas, 'build #%d' % i) or check_ids(p, 'build #%d' % i)
             if w is not None:
                 w['history'] = log; w['meta_args'] = margs; return w, log
             model, d = P.apply_edit(rnd, model, hist); hist.append(model); log.append(d)
@@ -84,7 +146,7 @@ def replay(rep):
     HASHDIR[0] = hashDirectory
     tried = 0; distinct = set(); samples = []; problems = 0
     with cf.ThreadPoolExecutor(max_workers=8) as ex:
-        futs = [ex.submit(one_history, seed * 1000 + i, 3 if not thorough else 5) for i in range(n)]
+        futs = [ex.submit(download_history)] + [ex.submit(one_history, seed * 1000 + i, 3 if not thorough else 5) for i in range(n)]
         for f in cf.as_completed(futs):
             w, log = f.result(); tried += 1
             if log and str(log[-1]).startswith('harness problem'): problems += 1; continue
@@ -95,5 +157,5 @@ def replay(rep):
                 return {'reproduced': True, 'tried': tried, 'witness': w}
     if problems > tried // 2: return {'reproduced': None, 'detail': 'replay harness problems in %d of %d cases' % (problems, tried)}
     return {'reproduced': False, 'tried': tried, 'distinct': len(distinct), 'samples': samples,
-            'bound': '%d generated projects (2-4 recipes) x edit histories of %d steps, optional -M variables incl. reserved names' % (n, 3 if not thorough else 5),
+            'bound': 'upload / wipe / rebuild-over-downloaded-dependencies history + %d generated projects (2-4 recipes) x edit histories of %d steps, optional -M variables incl. reserved names; every record id recomputed independently' % (n, 3 if not thorough else 5),
             'detail': 'every audit trail matched the steps, names, -M variables, workspace hashes and argument closure'}
